@@ -731,6 +731,41 @@ namespace
         }
         return std::vector<value>();
     }
+    // Three-way comparison of two values `sort` accepts: numbers (NaN in front of every number and equal to
+    // itself), strings (byte by byte), arrays of such values position by position; anything else is equal
+    int sort_compare(value::cref a, value::cref b)
+    {
+        if (a.is<t_scalar>() && b.is<t_scalar>())
+        {
+            auto x = a.data<d_scalar, float>();
+            auto y = b.data<d_scalar, float>();
+            if (x < y) { return -1; }
+            if (x > y) { return 1; }
+            bool x_nan = x != x;
+            bool y_nan = y != y;
+            return x_nan == y_nan ? 0 : (x_nan ? -1 : 1);
+        }
+        if (a.is<t_string>() && b.is<t_string>())
+        {
+            auto c = a.data<d_string, std::string>().compare(b.data<d_string, std::string>());
+            return c < 0 ? -1 : (c > 0 ? 1 : 0);
+        }
+        if (a.is<t_array>() && b.is<t_array>())
+        {
+            auto a_arr = a.data<d_array>();
+            auto b_arr = b.data<d_array>();
+            for (size_t idx = 0; idx < a_arr->size() && idx < b_arr->size(); ++idx)
+            {
+                // The elements of a key are compared by their own kind only, not as keys (a nested array is "anything else")
+                auto& a_elem = a_arr->at(idx);
+                auto& b_elem = b_arr->at(idx);
+                auto c = a_elem.is<t_array>() ? 0 : sort_compare(a_elem, b_elem);
+                if (c != 0) { return c; }
+            }
+            return 0;
+        }
+        return 0;
+    }
     value sort_array_boolean(runtime& runtime, value::cref left, value::cref right)
     {
         auto arr = left.data<d_array>();
@@ -764,44 +799,11 @@ namespace
             }
         }
 
+        // std::sort needs a strict weak ordering: sort_compare is a three-way comparison that is a total
+        // preorder on values of the same shape (which was checked above), the flag picks the direction
         std::sort(arr->begin(), arr->end(), [sort_flag](sqf::runtime::value::cref a, sqf::runtime::value::cref b) -> bool {
-
-            if (a.is<t_array>())
-            {
-                auto a_arr = a.data<d_array>()->value();
-                auto b_arr = b.data<d_array>()->value();
-
-                for (size_t idx = 0; idx < a_arr.size(); ++idx)
-                {
-                    const auto& a_elem = a_arr[idx];
-                    const auto& b_elem = b_arr[idx];
-
-                    if (a.is<t_string>())
-                    {
-                        if (a_elem.data<d_string, std::string>() < b_elem.data<d_string, std::string>()) return sort_flag;
-                        if (a_elem.data<d_string, std::string>() > b_elem.data<d_string, std::string>()) return !sort_flag;
-                    }
-                    else if (a.is<t_scalar>())
-                    {
-                        if (a_elem.data<d_scalar, float>() < b_elem.data<d_scalar, float>()) return sort_flag;
-                        if (a_elem.data<d_scalar, float>() > b_elem.data<d_scalar, float>()) return !sort_flag;
-                    }
-                }
-                return !sort_flag;
-            }
-            else if (a.is<t_string>())
-            {
-                if (a.data<d_string, std::string>() < b.data<d_string, std::string>()) return sort_flag;
-                if (a.data<d_string, std::string>() > b.data<d_string, std::string>()) return !sort_flag;
-                return false;
-            }
-            else if (a.is<t_scalar>())
-            {
-                if (a.data<d_scalar, float>() < b.data<d_scalar, float>()) return sort_flag;
-                if (a.data<d_scalar, float>() > b.data<d_scalar, float>()) return !sort_flag;
-                return false;
-            }
-            return !sort_flag;
+            auto c = sort_compare(a, b);
+            return sort_flag ? c < 0 : c > 0;
             });
 
         return {};
